@@ -513,9 +513,9 @@ func (s *Server) attachClient(cl *Client, listener string) error {
 		s.sendLWT(cl)
 		cl.Stop(err)
 	} else {
-		cl.Lock()
+		cl.propsMu.Lock()
 		cl.Properties.Will = Will{} // [MQTT-3.14.4-3] [MQTT-3.1.2-10]
-		cl.Unlock()
+		cl.propsMu.Unlock()
 	}
 	s.Log.Debug("client disconnected", "error", err, "client", cl.ID, "remote", cl.Net.Remote, "listener", listener)
 
@@ -692,10 +692,10 @@ func (s *Server) SendConnack(cl *Client, reason packets.Code, present bool, prop
 	if cl.Properties.Props.SessionExpiryInterval > s.Options.Capabilities.MaximumSessionExpiryInterval {
 		properties.SessionExpiryInterval = s.Options.Capabilities.MaximumSessionExpiryInterval
 		properties.SessionExpiryIntervalFlag = true
-		cl.Lock()
+		cl.propsMu.Lock()
 		cl.Properties.Props.SessionExpiryInterval = properties.SessionExpiryInterval
 		cl.Properties.Props.SessionExpiryIntervalFlag = true
-		cl.Unlock()
+		cl.propsMu.Unlock()
 	}
 
 	ack := packets.Packet{
@@ -1481,10 +1481,10 @@ func (s *Server) processDisconnect(cl *Client, pk packets.Packet) error {
 			return packets.ErrProtocolViolationZeroNonZeroExpiry
 		}
 
-		cl.Lock()
+		cl.propsMu.Lock()
 		cl.Properties.Props.SessionExpiryInterval = pk.Properties.SessionExpiryInterval
 		cl.Properties.Props.SessionExpiryIntervalFlag = true
-		cl.Unlock()
+		cl.propsMu.Unlock()
 	}
 
 	if pk.ReasonCode == packets.CodeDisconnectWillMessage.Code { // [MQTT-3.1.2.5] Non-normative comment
@@ -1608,9 +1608,9 @@ func (s *Server) closeListenerClients(listener string) {
 
 // sendLWT issues an LWT message to a topic when a client disconnects.
 func (s *Server) sendLWT(cl *Client) {
-	cl.RLock()
+	cl.propsMu.RLock()
 	will := cl.Properties.Will // the housekeeping and the handler of a newer connection may clear it concurrently
-	cl.RUnlock()
+	cl.propsMu.RUnlock()
 	if will.Flag == 0 {
 		return
 	}
@@ -1656,9 +1656,9 @@ func (s *Server) sendLWT(cl *Client) {
 	}
 
 	s.publishToSubscribers(pk) // [MQTT-3.1.2-8]
-	cl.Lock()
+	cl.propsMu.Lock()
 	cl.Properties.Will.Flag = 0 // [MQTT-3.1.2-10]
-	cl.Unlock()
+	cl.propsMu.Unlock()
 	s.hooks.OnWillSent(cl, pk)
 }
 
@@ -1820,12 +1820,12 @@ func (s *Server) clearExpiredClients(dt int64) {
 		}
 
 		expire := s.Options.Capabilities.MaximumSessionExpiryInterval
-		client.RLock() // a DISCONNECT being processed may be changing the interval
+		client.propsMu.RLock() // a DISCONNECT being processed may be changing the interval
 		if client.Properties.ProtocolVersion == 5 && client.Properties.Props.SessionExpiryIntervalFlag &&
 			client.Properties.Props.SessionExpiryInterval < expire { // the server maximum caps the client's interval
 			expire = client.Properties.Props.SessionExpiryInterval
 		}
-		client.RUnlock()
+		client.propsMu.RUnlock()
 
 		if disconnected+int64(expire) < dt {
 			s.hooks.OnClientExpired(client)
@@ -1877,9 +1877,9 @@ func (s *Server) sendDelayedLWT(dt int64) {
 			if pk.FixedHeader.Retain {
 				s.retainMessage(cl, pk)
 			}
-			cl.Lock()
+			cl.propsMu.Lock()
 			cl.Properties.Will = Will{} // [MQTT-3.1.2-10]
-			cl.Unlock()
+			cl.propsMu.Unlock()
 			s.hooks.OnWillSent(cl, pk)
 			s.loop.willDelayed.Delete(id)
 		}
